@@ -5,14 +5,27 @@ ID = "C16"
 RUN_MODULE = "RunC16"
 DRIVER = "window_driver.py"
 H = 3600 * 10**6
-RULE = ("one case = one lookup (start, end or None=now, now) over a bucket holding one recording per grid instant "
-        "(created = saved = last-modified at that instant, fake clock); non-trivial = window non-empty and not "
-        "covering everything; distinct = distinct (times, start, end, now)")
+RULE = ("one case = one lookup (start, end or None=now, now, optional metadata filter {'g': v}, ordered or shuffled "
+        "listing) over a bucket holding one recording per grid instant (created = saved = last-modified at that instant, "
+        "fake clock; metadata 'g' in {0,1,2} drawn per recording); every window of the grid is looked up without a "
+        "filter and (every second one) with a filter, so that recordings matching the filter sit in the edge day "
+        "folders on both sides of the window ends; non-trivial = window non-empty and not covering everything; "
+        "distinct = distinct (times, tags, start, end, now, filter, random)")
 EXHAUSTIVE = {"quick": False, "thorough": True}
 ASSUMPTIONS = ["process clock in UTC (datetime.today() == utcnow(), both replaced by the fake clock)",
                "strftime('%Y%m%d') injective and monotone on days (exercised across a leap day and a month boundary)",
                "S3 last_modified of an object = instant of its put (fake bucket)"]
 TRUSTED = ["fake bucket behind the real S3BasicFacade; fake clock substituted for s3_tape_cassette.datetime"]
+
+
+NTAGS = 3
+
+
+def _case(times, tags, start, end, now, flt=None, rnd=False, keep=None):
+    if keep is not None:
+        pairs = [(t, g) for t, g in zip(times, tags) if keep(t)]
+        times, tags = [t for t, _ in pairs], [g for _, g in pairs]
+    return dict(times=times, tags=tags, start=start, end=end, now=now, filter=flt, random=rnd)
 
 
 def generate(rng, tier):
@@ -22,49 +35,64 @@ def generate(rng, tier):
     # boundary instants: one microsecond around every midnight
     edges = [d * 24 * H + e for d in range(1, days) for e in (-1, 0, 1)]
     times = sorted(set(grid + extra + edges))
+    tags = [rng.randrange(NTAGS) for _ in times]      # metadata value 'g' of each recording
     step = 3 if tier == "quick" else 1
     pts = [h * H for h in range(0, 24 * days + 1, step)]
     cases = []
     nowv = days * 24 * H + H
-    for s in pts:
-        for e in pts:
+    for si, s in enumerate(pts):
+        for ei, e in enumerate(pts):
             if e < s - 6 * H:
                 continue
-            cases.append(dict(times=times, start=s, end=e, now=nowv))
-        for nw in (s + 2 * H, s + 25 * H, s + 47 * H + 30 * 60 * 10**6):   # end defaults to now
+            cases.append(_case(times, tags, s, e, nowv))
+            if (si + ei) % 2 == 0:
+                # the same window with a metadata filter (the facade then chains two predicates), ordered / shuffled
+                cases.append(_case(times, tags, s, e, nowv, flt=(si + ei) // 2 % NTAGS, rnd=(si + ei) % 4 == 0))
+        for k, nw in enumerate((s + 2 * H, s + 25 * H, s + 47 * H + 30 * 60 * 10**6)):   # end defaults to now
             # a lookup at `now` can only see recordings that were already saved
-            cases.append(dict(times=[t for t in times if t <= nw], start=s, end=None, now=nw))
+            cases.append(_case(times, tags, s, None, nw, keep=lambda t: t <= nw))
+            cases.append(_case(times, tags, s, None, nw, flt=(si + k) % NTAGS, rnd=k == 1, keep=lambda t: t <= nw))
     n_rand = 150 if tier == "quick" else 1500
     for _ in range(n_rand):   # minute / microsecond level instants
         s = rng.randrange(0, days * 24 * 60) * 60 * 10**6 + rng.choice([0, 0, 1, 999999, rng.randrange(60 * 10**6)])
         e = s + rng.randrange(-2 * 60, 50 * 60) * 60 * 10**6 + rng.choice([0, 1, -1, rng.randrange(60 * 10**6)])
+        flt = rng.choice([None, None, 0, 1, 2])
+        rnd = rng.random() < 0.3
         if rng.random() < 0.25:
-            cases.append(dict(times=[t for t in times if t <= max(e, 0)], start=s, end=None, now=max(e, 0)))
+            cases.append(_case(times, tags, s, None, max(e, 0), flt=flt, rnd=rnd, keep=lambda t: t <= max(e, 0)))
         else:
-            cases.append(dict(times=times, start=s, end=e, now=nowv))
+            cases.append(_case(times, tags, s, e, nowv, flt=flt, rnd=rnd))
     cases.sort(key=lambda c: (len(c["times"]), c["now"]))
     return cases
+
+
+def tags_of(case):
+    return case.get("tags") or [0] * len(case["times"])     # (cases written before the filter dimension existed)
 
 
 def prelude(cases):
     seen = {}
     out = []
     for c in cases:
-        k = tuple(c["times"])
+        k = (tuple(c["times"]), tuple(tags_of(c)))
         if k not in seen:
-            seen[k] = "times_%d" % len(seen)
-            out.append("Definition %s : list Z := %s." % (seen[k], glist([gZ(t) for t in k])))
+            n = len(seen)
+            seen[k] = "times_%d tags_%d" % (n, n)
+            out.append("Definition times_%d : list Z := %s." % (n, glist([gZ(t) for t in k[0]])))
+            out.append("Definition tags_%d : list Z := %s." % (n, glist([gZ(g) for g in k[1]])))
     prelude.names = seen
     return "\n".join(out)
 
 
 def to_gallina(case, obs):
-    name = prelude.names[tuple(case["times"])]
+    name = prelude.names[(tuple(case["times"]), tuple(tags_of(case)))]
     listed = obs.get("listed", [-1])
     if any(i < 0 for i in listed) or obs.get("n") != len(listed):
         listed = [4999]   # unknown ids / driver trouble: force a mismatch
-    return "Case %s %s %s %s %s" % (name, gZ(case["start"]), gopt(None if case["end"] is None else gZ(case["end"])),
-                                    gZ(case["now"]), glist([gnat(i) for i in listed]))
+    flt = case.get("filter")
+    return "Case %s %s %s %s %s %s" % (name, gZ(case["start"]), gopt(None if case["end"] is None else gZ(case["end"])),
+                                       gZ(case["now"]), gopt(None if flt is None else gZ(flt)),
+                                       glist([gnat(i) for i in listed]))
 
 
 def explain(case, obs):
@@ -75,7 +103,9 @@ def direct(case, obs):
     if "driver_exception" in obs:
         return [("lookup-raises", obs["driver_exception"])]
     e = case["now"] if case["end"] is None else case["end"]
-    want = [i for i, t in enumerate(case["times"]) if case["start"] <= t <= e]
+    flt, tags = case.get("filter"), tags_of(case)
+    inside = [i for i, t in enumerate(case["times"]) if case["start"] <= t <= e]
+    want = [i for i in inside if flt is None or tags[i] == flt]
     got = obs["listed"]
     fails = []
     if len(set(got)) != len(got):
@@ -83,13 +113,18 @@ def direct(case, obs):
     if obs["unknown"] or any(i < 0 for i in got):
         fails.append(("foreign-id", "listed ids that were not saved in this category: %s" % obs["unknown"]))
     missed = sorted(set(want) - set(got))
-    extra = sorted(set(got) - set(want) - {-1})
+    unmatched = sorted(i for i in set(got) & set(inside) if i not in want)
+    extra = sorted(set(got) - set(inside) - {-1})
+    if unmatched:
+        fails.append(("listed-not-matching", "recordings inside the window listed although their metadata does not "
+                      "satisfy the filter g=%s: times(us)=%s" % (flt, [case["times"][i] for i in unmatched[:5]])))
     if missed:
         fails.append(("missed-inside-window", "recordings inside the window not listed, times(us)=%s" %
                       [case["times"][i] for i in missed[:5]]))
     if extra:
-        fails.append(("listed-outside-window", "recordings outside the window listed, times(us)=%s" %
-                      [case["times"][i] for i in extra[:5]]))
+        fails.append(("listed-outside-window", "recordings outside the window listed%s, times(us)=%s" %
+                      ("" if flt is None else " (lookup with metadata filter g=%s)" % flt,
+                       [case["times"][i] for i in extra[:5]])))
     return fails
 
 
@@ -97,6 +132,16 @@ def features(case):
     e = case["now"] if case["end"] is None else case["end"]
     f = set()
     f.add("end=now" if case["end"] is None else "end=explicit")
+    f.add("filter=" + ("none" if case.get("filter") is None else "metadata"))
+    f.add("listing=" + ("shuffled" if case.get("random") else "ordered"))
+    if case.get("filter") is not None:
+        D, tags = 24 * H, tags_of(case)
+        for i, t in enumerate(case["times"]):
+            if tags[i] == case["filter"] and not (case["start"] <= t <= e):
+                if t // D == case["start"] // D and t < case["start"]:
+                    f.add("matching-recording-in-first-day-folder-before-start")
+                if t // D == e // D and t > e:
+                    f.add("matching-recording-in-last-day-folder-after-end")
     f.add("span_days=%d" % ((e // (24 * H)) - (case["start"] // (24 * H))) if e >= case["start"] else "empty-window")
     if e >= case["start"] and (e % (24 * H)) < (case["start"] % (24 * H)):
         f.add("end-time-of-day-before-start-time-of-day")
@@ -107,22 +152,27 @@ def features(case):
 
 def nontrivial(case):
     e = case["now"] if case["end"] is None else case["end"]
-    n = sum(1 for t in case["times"] if case["start"] <= t <= e)
+    flt, tags = case.get("filter"), tags_of(case)
+    n = sum(1 for i, t in enumerate(case["times"]) if case["start"] <= t <= e and (flt is None or tags[i] == flt))
     return 0 < n < len(case["times"])
 
 
 def shrink_candidates(case):
-    ts = case["times"]
+    ts, gs = case["times"], tags_of(case)
     if len(ts) > 1:
-        yield dict(case, times=ts[:len(ts) // 2])
-        yield dict(case, times=ts[len(ts) // 2:])
+        yield dict(case, times=ts[:len(ts) // 2], tags=gs[:len(ts) // 2])
+        yield dict(case, times=ts[len(ts) // 2:], tags=gs[len(ts) // 2:])
         for i in range(min(len(ts), 12)):
-            yield dict(case, times=ts[:i] + ts[i + 1:])
+            yield dict(case, times=ts[:i] + ts[i + 1:], tags=gs[:i] + gs[i + 1:])
+    if case.get("random"):
+        yield dict(case, tags=gs, random=False)
+    if case.get("filter") is not None:
+        yield dict(case, tags=gs, filter=None)
 
 
 MANIFEST = dict(
     design_ref='6/C16',
-    text='Coq theorems over all integer instants (window exactness, day cover, nothing outside, distinct folders; legacy defect refuted with a witness) about a hand-written model of _get_id_prefixes + the last-modified predicate; model tied to /repo on every run by running the real S3TapeCassette (fake bucket, fake clock) and the model on the same window grid + random instants; direct predicate on the implementation searches for a failing window.',
+    text='Coq theorems over all integer instants (window exactness, also next to a metadata filter; day cover, nothing outside, distinct folders; legacy defect refuted with a witness) about a hand-written model of _get_id_prefixes + the facade predicate list (last-modified predicate, content predicate); model tied to /repo on every run by running the real S3TapeCassette (fake bucket, fake clock) and the model on the same window grid + random instants, each window without and (every second one) with a metadata filter, ordered or shuffled; direct predicate on the implementation searches for a failing window.',
     note="Trusted: Coq kernel + vm_compute; hand-written model; correspondence harness (fake bucket behind the real S3BasicFacade, fake clock); strftime day formatting and 'process clock is UTC' are assumptions.",
     technique='Coq proof (lia over Z) + model/implementation correspondence by vm_compute',
 )
